@@ -34,6 +34,9 @@ def _in_range(i, lo, hi):
 
 
 def _the_normal_leaf(ob, v, what, where):
+    for x in distinct_leaves(v):
+        if T.tag(x) == 'raise' and x[1] not in ('InvalidKeyError', 'MalformedPointError'):
+            ob.require(False, '%s refuses allowed parameters with %s (only the 2^-127 invalid-key cases may fail)' % (what, x[1]), where)
     nl = normal_leaves(v)
     if len(nl) != 1:
         ob.undecided('%s: expected exactly one non-raising exit, found %d' % (what, len(nl)), where)
